@@ -220,6 +220,10 @@ type Target struct {
 	// enclosing block, up to the end of that block (Rest = falling out of the block; "" when the
 	// block is the function body and must end in a return).
 	After bool
+	// NakedRet: the Gallina term for a result-less `return` of a function without results (the
+	// translated value is then a quantity the statements act on, named by the hints, e.g. a
+	// counter); without it a naked return is outside the subset.
+	NakedRet string
 	// Extensions of records.go: declared non-local lvalues (Go source text -> Gallina variable),
 	// type assertions (asserted type -> {is-function, value-function}), the nil test of
 	// interface values, and "only the value of this composite-literal key".
@@ -498,6 +502,9 @@ func (c *fnctx) stmts(list []ast.Stmt, rest string) string {
 	switch x := s.(type) {
 	case *ast.ReturnStmt:
 		if len(x.Results) == 0 {
+			if c.tg.NakedRet != "" {
+				return c.ret(c.tg.NakedRet)
+			}
 			failf("%s: naked return", c.t.pos(s))
 		}
 		idx := 0
@@ -876,6 +883,9 @@ func (t *translator) emitFunc(tg *Target, w *bytes.Buffer) {
 		if tg.Pre != "" {
 			fmt.Fprintf(w, "   prefix: %s\n", tg.Pre)
 		}
+	}
+	if tg.NakedRet != "" {
+		fmt.Fprintf(w, "   a result-less return  =>  %s\n", tg.NakedRet)
 	}
 	if kv != nil {
 		fmt.Fprintf(w, "   only the value of the composite-literal entry at line %d: %s\n", t.fset.Position(kv.Pos()).Line, t.src(kv))
